@@ -3,30 +3,79 @@
   Helper lemmas live in Proofs/C04*.lean.
 
   `cfg` is built from Generated/C04.lean, which the translator rewrites from /repo's source on
-  every run; `cfg_good` is the proof obligation that breaks when `pid_exists` lets the
-  OverflowError of an out-of-range int escape (lead L4), or when `pid`/`ppid` stop being valid
-  `as_dict` names of the kinds the model assumes. The order in which `process_iter` drains
+  every run. Proof obligations on the facts (each one stops building when the fact changes):
+  `cfg_good` (`pid_exists` turns the OverflowError of an out-of-range int into False, lead L4),
+  `cfg_reuse_attrs` (the ONLY `as_dict` name whose getter calls `_raise_if_pid_reused()` is `ppid`:
+  the region of known finding C04-reuse-check-skips-pid must not grow), `cfg_no_access_attrs`
+  (`as_dict` answers exactly `pid` and `create_time` from the object), `cfg_names_valid` (those three
+  are valid names), `cfg_pop_guarded` (fix 4d302c5). The order in which `process_iter` drains
   `_pids_reused` (`cfg.drainFirst`, lead L19 — a known finding, its repair is pinned by an
-  existing test) selects which model the driver runs; the theorems below are proved for both
-  orders, with the extra hypothesis "no PID is flagged when the iteration starts" for the
-  current one.
+  existing test) is NOT an obligation: it selects which model the driver runs. Safety theorems hold
+  for both orders; completeness at full strength for the repaired order only (`…_repaired`), refuted
+  for the shipped one (`C04_iter_each_listed_Full_fails_shipped`), where the two-iteration form
+  `C04_recycled_replaced_two_iterations` holds instead.
 -/
 import PsutilModel.Proofs.C04Whole
 import PsutilModel.Proofs.C04Fine
+import PsutilModel.Proofs.C04Flag
 import PsutilModel.Model.C04Gen
 namespace Psutil.C04
 open Spec
 
-/-- what the theorems need of the translator facts -/
+/-- what the `pid_exists` / refinement theorems need of the translator facts (every field is used by a
+    proof: `C04_pidExists_iff`, `C04_refines_sequential`) -/
 structure Cfg.Good (c : Cfg) : Prop where
   range : c.rangeGuard = true
-  pidValid : c.validNames.contains "pid" = true
-  pidNoAccess : c.noAccessAttrs.contains "pid" = true
-  reuseValid : c.reuseAttrs.all c.validNames.contains = true
-  reuseAccess : c.reuseAttrs.all (fun n => !c.noAccessAttrs.contains n) = true
 
-theorem cfg_good : cfg.Good := by
-  refine ⟨?_, ?_, ?_, ?_, ?_⟩ <;> decide
+theorem cfg_good : cfg.Good := ⟨by decide⟩
+
+/-- **obligation (audit item 3).** `ppid` is the only `as_dict` name whose getter calls
+    `_raise_if_pid_reused()` (anywhere in its body). A getter that gains the call — `process_iter(attrs=[that
+    name])` would then drop every recycled PID — changes this fact and stops the build; the harness keeps the
+    region of known finding C04-reuse-check-skips-pid pinned to `ppid`, so the new behaviour is a failing
+    input, not a known finding. Consumed by `C04_noReuse_iff`. -/
+theorem cfg_reuse_attrs : cfg.reuseAttrs = ["ppid"] := by decide
+
+/-- **obligation.** exactly `pid` (special-cased by `as_dict`) and `create_time` (cached by `_init`) are
+    answered from the object without looking at the process. Consumed by `C04_noReuse_iff`; pins the
+    parameter `noAccess` of the specification machine in `C04_refines_sequential`. -/
+theorem cfg_no_access_attrs : cfg.noAccessAttrs = ["create_time", "pid"] := by decide
+
+/-- **obligation.** the names the model gives a kind of their own are valid `as_dict` names -/
+theorem cfg_names_valid :
+    cfg.validNames.contains "pid" = true ∧ cfg.validNames.contains "create_time" = true
+    ∧ cfg.validNames.contains "ppid" = true := by decide
+
+/-- what the hypothesis `NoReuse cfg attrs` of the completeness / refinement theorems means for the code as
+    it is (uses `cfg_reuse_attrs`, `cfg_no_access_attrs`, `cfg_names_valid`): `attrs=None`, or a non-empty
+    list of names without `ppid`. `attrs=[]` (all names, `ppid` among them) is excluded. -/
+theorem C04_noReuse_iff (l : List String) :
+    NoReuse cfg (.names l) ↔ l ≠ [] ∧ "ppid" ∉ l := by
+  have kind : ∀ n, kindOf cfg n = .reuse ↔ n = "ppid" := by
+    intro n
+    simp only [kindOf, cfg_reuse_attrs, cfg_no_access_attrs]
+    by_cases h1 : n = "create_time"
+    · subst h1; decide
+    · by_cases h2 : n = "pid"
+      · subst h2; decide
+      · by_cases h3 : n = "ppid"
+        · subst h3; decide
+        · simp [h1, h2, h3]
+  simp only [NoReuse, namesOf]
+  cases l with
+  | nil =>
+    simp only [List.isEmpty_nil, if_true, ne_eq, not_true_eq_false, false_and, iff_false]
+    intro h
+    have hv : "ppid" ∈ cfg.validNames := by simpa using cfg_names_valid.2.2
+    exact h "ppid" hv ((kind "ppid").mpr rfl)
+  | cons x xs =>
+    simp only [List.isEmpty_cons, Bool.false_eq_true, if_false, ne_eq, reduceCtorEq, not_false_eq_true, true_and]
+    constructor
+    · intro h hm
+      exact h "ppid" ((mem_dedup _ _).mpr hm) ((kind "ppid").mpr rfl)
+    · intro h n hn hk
+      rw [(kind n).mp hk] at hn
+      exact h ((mem_dedup _ _).mp hn)
 
 /-! ## `pids()` -/
 
@@ -246,13 +295,14 @@ theorem C04_platform_eq (k : Kernel) (n : Nat) (hn : 0 < n) :
     Kernel.applyAll, List.foldl_nil]
   cases k.kill n <;> simp only <;> cases k.readStatus n <;> rfl
 
-/-- **C04_linux_pidExists_linearizable.** `_pslinux.pid_exists(n)` called on its own, every branch
+/-- **C04_linux_pidExists_two_instants.** `_pslinux.pid_exists(n)` called on its own, every branch
     (ESRCH; `Tgid:` equal / different — a thread id; `Tgid:` line missing → ValueError → listing;
     status unreadable or gone → OSError → listing; PID 0), with ANY table changes between the
     `kill` probe and the status read: the answer is a bool; True only if `n` is a listed PID when
     the status file is read; False only if `n` was not a listed PID at the probe or is not one at
-    the read. So the answer is right for the table at some moment during the call. -/
-theorem C04_linux_pidExists_linearizable (k : Kernel) (hwf : k.WF) (n : Nat) (hb : n ≤ pidTMax)
+    the read. So the answer is right for the table at one of TWO instants of the call (probe, read) — not a
+    linearizability proof: the fallback `n in pids()` is read at the same instant as the status file. -/
+theorem C04_linux_pidExists_two_instants (k : Kernel) (hwf : k.WF) (n : Nat) (hb : n ≤ pidTMax)
     (mid : List KEv) :
     ∃ b, (linuxPidExists k n mid).2 = .bool b
       ∧ (b = true → n ∈ (k.applyAll mid).listdir)
@@ -294,7 +344,7 @@ theorem C04_linux_pidExists_linearizable (k : Kernel) (hwf : k.WF) (n : Nat) (hb
     is True exactly for the listed PIDs — False for every thread id. -/
 theorem C04_linux_pidExists_iff (k : Kernel) (hwf : k.WF) (n : Nat) (hb : n ≤ pidTMax) :
     ∃ b, (linuxPidExists k n []).2 = .bool b ∧ (b = true ↔ n ∈ k.listdir) := by
-  obtain ⟨b, h1, h2, h3⟩ := C04_linux_pidExists_linearizable k hwf n hb []
+  obtain ⟨b, h1, h2, h3⟩ := C04_linux_pidExists_two_instants k hwf n hb []
   refine ⟨b, h1, h2, ?_⟩
   intro hl
   cases b with
@@ -496,10 +546,11 @@ def C04_iter_each_listed_Full (c : Cfg) : Prop :=
     ∧ ((step c s (.next g mid)).2 = .stop →
         remaining (step c s (.next g mid)).1 g = some [] ∧ ∀ q ∈ l, (s.k.applyAll mid).statStart q = none)
 
-/-- **C04_iter_each_listed_once / C04_iter_skips_vanished** hold at full strength — overlapping
-    generators included — for the repaired order (`_pids_reused` drained before the set
-    differences). -/
-theorem C04_iter_each_listed_once (c : Cfg) (hd : c.drainFirst = true) : C04_iter_each_listed_Full c :=
+/-- **C04_iter_each_listed_once_repaired** — NOT a statement about the shipped code: the completeness
+    clause holds at full strength — overlapping generators included — for any configuration with the
+    REPAIRED order (`_pids_reused` drained before the set differences). For the shipped order it is
+    false: `C04_iter_each_listed_Full_fails_shipped`. -/
+theorem C04_iter_each_listed_once_repaired (c : Cfg) (hd : c.drainFirst = true) : C04_iter_each_listed_Full c :=
   fun s g mid gen l hi hg hnr hl => genNext_complete c s (Or.inl hd) g mid hi gen hg hnr l hl
 
 /-- …and for the code as it is (either order) whenever no PID is flagged as recycled at the
@@ -748,8 +799,9 @@ def histL19 : List Op :=
 /-- **Lead L19.** With the set differences computed before `_pids_reused` is drained (the order
     of the current code), the iteration that follows the `is_running()` call yields PIDs 1 and 9
     only, although 5 is listed — while the specification, and the model with the repaired order,
-    yield a fresh object for 5. Hence `C04_iter_each_listed_Full` fails for the current order
-    exactly when a PID is flagged at the start of an iteration. -/
+    yield a fresh object for 5. That `C04_iter_each_listed_Full` itself fails for the shipped order
+    is `C04_iter_each_listed_Full_fails_shipped` (same witness); what holds instead is
+    `C04_recycled_replaced_two_iterations`. -/
 theorem C04_L19_counterexample :
     let cur : Cfg := { cfg with drainFirst := false }
     let rep : Cfg := { cfg with drainFirst := true }
@@ -842,9 +894,10 @@ def C04_iteration_complete_Full (c : Cfg) : Prop :=
     remaining s g = some l → Op.close g ∉ h →
     IterationAccounted c s g l (.next g mid0 :: h)
 
-/-- **C04_iteration_complete** — full strength, overlapping generators included, for the repaired
-    prologue order. -/
-theorem C04_iteration_complete (c : Cfg) (hd : c.drainFirst = true) : C04_iteration_complete_Full c :=
+/-- **C04_iteration_complete_repaired** — NOT a statement about the shipped code: full strength,
+    overlapping generators included, for the REPAIRED prologue order; false for the shipped one
+    (`C04_iteration_complete_Full_fails_shipped`). -/
+theorem C04_iteration_complete_repaired (c : Cfg) (hd : c.drainFirst = true) : C04_iteration_complete_Full c :=
   fun s g gen l mid0 h hi hg hv hnr hl hnc =>
     whole_iteration c s hi g gen hg (fun _ => Or.inl hd) hv hnr l hl mid0 h hnc
 
@@ -1027,6 +1080,179 @@ example :
       [⟨none, true⟩, ⟨none, true⟩, ⟨none, true⟩, ⟨none, false⟩]
     = ⟨[(1, some 0), (5, some 1), (7, none), (9, some 2)], [(1, 0), (5, 1)], some [(1, 0), (5, 1)], none⟩ := by
   decide
+
+/-! ## round 3 — the shipped prologue order and a PID flagged as recycled; object ↔ PID -/
+
+/-- the shipped order as a configuration: the extracted facts with `drainFirst = false`. On the current tree
+    this IS `cfg` (`Generated.C04.drainFirst = false`); written this way so that a landed repair of L19 flips
+    the model the driver runs without breaking the counterexamples. -/
+def shipped : Cfg := { cfg with drainFirst := false }
+
+/-- the L19 state: `list(process_iter())` over {1,5,9}; 5 recycled; `is_running()` on the old object flags
+    it; a second generator (number 1) is created -/
+def sL19 : St := runAll shipped (St.init k159) (fullIter 0 ++ [.kev (.exit 5), .kev (.spawn p5'), .isRunning 1, .iter .none])
+
+/-- **¬ C04_iter_each_listed_Full for the shipped order** (audit item 2): in the reachable state `sL19` the
+    remaining PIDs of the new generator are [1, 5, 9]; its first `next()` yields 1 and leaves [9] — 5, which
+    is in the table all along, is neither yielded nor remaining. Known finding C04-flagged-pid-skipped. -/
+theorem C04_iter_each_listed_Full_fails_shipped : ¬ C04_iter_each_listed_Full shipped := by
+  intro hF
+  have hi : Inv sL19 := runAll_inv shipped _ _ (init_inv k159 ⟨by decide, by decide, by decide, by decide⟩)
+  have h := (hF sL19 1 [] ⟨.none, .fresh⟩ [1, 5, 9] hi (by decide) trivial (by decide)).1 0 1 none (by decide)
+  obtain ⟨pre, rest, h1, h2, _⟩ := h
+  have h3 : remaining (step shipped sL19 (.next 1 [])).1 1 = some [9] := by decide
+  rw [h3] at h2
+  simp only [Option.some.injEq] at h2
+  subst h2
+  have hl := congrArg List.length h1
+  cases pre with
+  | nil => simp at h1
+  | cons x xs =>
+    cases xs with
+    | nil => simp at h1
+    | cons y ys => simp at hl
+
+/-- the same for the whole-iteration sentence: the generator runs to its end having yielded [1, 9]; 5 never
+    vanished -/
+theorem C04_iteration_complete_Full_fails_shipped : ¬ C04_iteration_complete_Full shipped := by
+  intro hF
+  have hi : Inv sL19 := runAll_inv shipped _ _ (init_inv k159 ⟨by decide, by decide, by decide, by decide⟩)
+  have h := hF sL19 1 ⟨.none, .fresh⟩ [1, 5, 9] [] [.next 1 [], .next 1 []] hi (by decide) trivial trivial
+    (by decide) (by decide)
+  rcases h.2 5 (by decide) with h5 | h5 | ⟨l', h5, h6⟩
+  · revert h5; decide
+  · simp only [VanishedAt] at h5
+    rcases h5 with ⟨mid, he, hv⟩ | ⟨mid, he, hv⟩ | ⟨mid, he, hv⟩ | h5
+    · cases he; revert hv; decide
+    · cases he; revert hv; decide
+    · cases he; revert hv; decide
+    · exact h5
+  · have : remaining (runAll shipped sL19 [.next 1 [], .next 1 [], .next 1 []]) 1 = some [] := by decide
+    rw [this] at h5
+    simp only [Option.some.injEq] at h5
+    subst h5; cases h6
+
+/-- for the code as it is: if the extracted order is the shipped one, `cfg` itself fails the full clause -/
+theorem C04_iter_each_listed_Full_fails (h : cfg.drainFirst = false) : ¬ C04_iter_each_listed_Full cfg := by
+  have : cfg = shipped := by
+    unfold shipped
+    cases hc : cfg
+    rw [hc] at h
+    simp only at h
+    simp [h]
+  rw [this]; exact C04_iter_each_listed_Full_fails_shipped
+
+/-- **C04_flagged_iteration_skips (iteration n, shipped order)** — the characterisation of known finding
+    C04-flagged-pid-skipped at full generality: from ANY reachable state in which PID `p` is flagged as
+    recycled (`_pids_reused`) and still cached, the iteration that starts now — consumed by any number of
+    `next(g)` calls, kernel events anywhere (inside and between the calls), any `attrs` — never yields `p`
+    (although it may be listed all along), and once it has finished the published `_pmap` has no entry for
+    `p`: the stale object is dropped. -/
+theorem C04_flagged_iteration_skips (c : Cfg) (hd : c.drainFirst = false) (s : St) (hi : Inv s) (g : Nat)
+    (gen : Gen) (hg : s.gens[g]? = some gen) (hst : gen.st = .fresh) (hne : s.k.listdir ≠ []) (p : Nat)
+    (hp : p ∈ s.flagged) (hc : (s.pmap.get p).isSome) (mid0 : List KEv) (h : List Op) (hops : IterOps g h) :
+    p ∉ yieldsOf c s g (.next g mid0 :: h)
+    ∧ (∀ gen', (runAll c s (.next g mid0 :: h)).gens[g]? = some gen' → gen'.st = .done →
+        (runAll c s (.next g mid0 :: h)).pmap.get p = none) := by
+  obtain ⟨h1, gen', hg', hcase⟩ := flagged_iteration_skips c hd s hi g gen hg hst hne p hp hc mid0 h hops
+  refine ⟨h1, ?_⟩
+  intro gen'' hg'' hdone
+  rw [hg'] at hg''
+  simp only [Option.some.injEq] at hg''
+  subst hg''
+  rcases hcase with ⟨pm, t, l, hst', _, _⟩ | ⟨_, hpm⟩
+  · rw [hst'] at hdone; cases hdone
+  · exact hpm
+
+/-- **C04_uncached_iteration_fresh (iteration n+1, shipped order).** From ANY reachable state in which `_pmap`
+    has no entry for the listed PID `p` (in particular the state `C04_flagged_iteration_skips` ends in), the
+    iteration that starts now — any number of `next(g)` calls, kernel events anywhere, any `attrs` — yields for
+    `p` only a reference that NO object had when the iteration started (`Process(p)` is called anew), and that
+    object is a `Process` whose `pid` is `p`. Whether `p` is yielded at all is the completeness clause
+    (`C04_iteration_complete_partial`: nothing is flagged any more, so yielded or vanished). -/
+theorem C04_uncached_iteration_fresh (c : Cfg) (hd : c.drainFirst = false) (s : St) (hi : Inv s) (ho : ObjInv s)
+    (g : Nat) (gen : Gen) (hg : s.gens[g]? = some gen) (hst : gen.st = .fresh) (p : Nat)
+    (hc : s.pmap.get p = none) (hl : p ∈ s.k.listdir) (mid0 : List KEv) (h : List Op) (hops : IterOps g h) :
+    ∀ r ∈ yieldRefsOf c s g p (.next g mid0 :: h),
+      s.objs.length ≤ r ∧ ∃ o, (runAll c s (.next g mid0 :: h)).objs[r]? = some o ∧ o.pid = p := by
+  intro r hr
+  have hfresh := uncached_iteration_fresh c hd s hi ho g gen hg hst p hc hl mid0 h hops r hr
+  refine ⟨hfresh, ?_⟩
+  exact yieldRef_obj c g p (.next g mid0 :: h) s ho r hr
+
+/-- **C04_recycled_replaced_two_iterations** (statement clause 8 for the SHIPPED order; audit item 1). PID `p`
+    was found recycled by `is_running()` (flagged) and its stale object is still cached. Iteration n (generator
+    `g`, run to its end by `next(g)` calls with kernel events anywhere) does not yield `p` — the flagged entry
+    is only dropped (known finding C04-flagged-pid-skipped) — and iteration n+1 (a generator created after
+    that, `p` still listed) yields for `p` only a FRESH object of PID `p`: a reference that did not exist
+    before iteration n+1 began, hence different from the stale object and from every other cached one. That
+    the fresh object is then KEPT by later iterations is `C04_refines_sequential_from` (nothing is flagged
+    any more) with `C04_start_cache` / `C04_spec_visit`. -/
+theorem C04_recycled_replaced_two_iterations (c : Cfg) (hd : c.drainFirst = false) (s : St) (hi : Inv s)
+    (ho : ObjInv s) (g : Nat) (gen : Gen) (hg : s.gens[g]? = some gen) (hst : gen.st = .fresh)
+    (hne : s.k.listdir ≠ []) (p : Nat) (hp : p ∈ s.flagged) (hc : (s.pmap.get p).isSome)
+    (mid0 : List KEv) (h1 : List Op) (hops1 : IterOps g h1)
+    (gen1 : Gen) (hend : (runAll c s (.next g mid0 :: h1)).gens[g]? = some gen1) (hdone : gen1.st = .done)
+    (a' : Attrs) (hl : p ∈ (runAll c s (.next g mid0 :: h1)).k.listdir)
+    (mid1 : List KEv) (h2 : List Op)
+    (hops2 : IterOps (runAll c s (.next g mid0 :: h1)).gens.length h2) :
+    let s1 := runAll c s (.next g mid0 :: h1)
+    let s2 := (step c s1 (.iter a')).1
+    let g' := s1.gens.length
+    p ∉ yieldsOf c s g (.next g mid0 :: h1)
+    ∧ ∀ r ∈ yieldRefsOf c s2 g' p (.next g' mid1 :: h2),
+        s1.objs.length ≤ r ∧ ∃ o, (runAll c s2 (.next g' mid1 :: h2)).objs[r]? = some o ∧ o.pid = p := by
+  intro s1 s2 g'
+  obtain ⟨n1, n2⟩ := C04_flagged_iteration_skips c hd s hi g gen hg hst hne p hp hc mid0 h1 hops1
+  have hpm : s1.pmap.get p = none := n2 gen1 hend hdone
+  have hi1 : Inv s1 := runAll_inv c _ s hi
+  have ho1 : ObjInv s1 := runAll_objInv c _ s ho
+  have hi2 : Inv s2 := (step_inv c s1 (.iter a') hi1).1
+  have ho2 : ObjInv s2 := step_objInv c s1 (.iter a') ho1
+  have hg2 : s2.gens[g']? = some ⟨a', .fresh⟩ := by
+    show (s1.gens ++ [⟨a', .fresh⟩])[s1.gens.length]? = _
+    simp
+  refine ⟨n1, ?_⟩
+  exact C04_uncached_iteration_fresh c hd s2 hi2 ho2 g' ⟨a', .fresh⟩ hg2 rfl p hpm hl mid1 h2 hops2
+
+/-- the L19 history continued by two more iterations, on the shipped order: iteration n yields 1, 9 (5 is
+    dropped, not yielded); iteration n+1 yields the fresh object 3 for PID 5; iteration n+2 yields the very
+    same objects again (the fresh one is kept) -/
+example :
+    (trace shipped (St.init k159) (histL19 ++ fullIter 2 ++ fullIter 3)).drop 9
+      = [.yield 0 1 none, .yield 2 9 none, .stop, .stop,
+         .gen 2, .yield 0 1 none, .yield 3 5 none, .yield 2 9 none, .stop,
+         .gen 3, .yield 0 1 none, .yield 3 5 none, .yield 2 9 none, .stop] := by decide
+
+/-- **C04_refines_sequential_from.** The refinement of `C04_refines_sequential` from ANY idle reachable state
+    (no generator suspended), not only the initial one: in particular from the state after the iteration that
+    dropped a flagged PID — from there on nothing is flagged, and every sequential continuation of the code as
+    it is equals the specification machine started on the abstraction of that state: the fresh object yielded
+    for the recycled PID in the next iteration is cached and yielded again by the following ones. -/
+theorem C04_refines_sequential_from (s : St) (hi : Inv s)
+    (hidle : ∀ (j : Nat) (gen : Gen), s.gens[j]? = some gen → isRun gen = false)
+    (h : List Op) (hs : SeqHist cfg s h) :
+    strace cfg.validNames cfg.noAccessAttrs (abs s) h = (trace cfg s h).map some :=
+  trace_sim cfg cfg_good.range h s (seqInv_of_idle hi hidle) hs
+
+/-- **C04_yield_object_pid** (statement clause "yields one Process per listed PID"; audit item 8). In every
+    state reachable from the initial one by ANY history, for every configuration: the reference `next(g)`
+    yields together with PID `p` points to an existing object whose `pid` field is `p`; and every reference
+    stored in `_pmap`, in a suspended generator's private map or on its to-do list points to an existing
+    object of the PID it is filed under (no dangling reference: the `none` defaults of `raiseIfReused` /
+    `asDictLoop` / `St.setObj` are unreachable). -/
+theorem C04_yield_object_pid (c : Cfg) (k : Kernel) (h : List Op) (g : Nat) (mid : List KEv) (r : Ref) (p : Nat)
+    (info : Option (List String))
+    (hy : (step c (runAll c (St.init k) h) (.next g mid)).2 = .yield r p info) :
+    (∃ o, (step c (runAll c (St.init k) h) (.next g mid)).1.objs[r]? = some o ∧ o.pid = p)
+    ∧ ObjInv (runAll c (St.init k) h) :=
+  ⟨next_yield_obj c _ (reachable_objInv c k h) g mid r p info hy, reachable_objInv c k h⟩
+
+/-- objects are never deleted and never change PID: a reference once yielded for `p` stays an object of `p`
+    along any continuation -/
+theorem C04_object_pid_stable (c : Cfg) (s : St) (ho : ObjInv s) (h : List Op) (r : Ref) (o : PObj)
+    (hr : s.objs[r]? = some o) : ∃ o', (runAll c s h).objs[r]? = some o' ∧ o'.pid = o.pid :=
+  runAll_objsExt c h s ho r o hr
 
 /-- proof obligation on the translator's fact (fix 4d302c5 landed): the drain loop of `process_iter`
     survives `_pids_reused.pop()` on a set another thread emptied (so `C04_drain_guarded_safe`, not
